@@ -487,7 +487,7 @@ func (c *Cluster) Do(s Step) bool {
 		}
 		c.Boot(s.Node)
 		return true
-	case "Tick", "Campaign", "Propose", "ProposeConfChange", "ReadIndex", "TransferLeader", "ForgetLeader",
+	case "Tick", "Campaign", "Propose", "ProposeConfChange", "ProposeBatch", "ReadIndex", "TransferLeader", "ForgetLeader",
 		"ReportUnreachable", "ReportSnapshot":
 		return c.doLocal(s)
 	case "Deliver":
@@ -532,6 +532,8 @@ func (c *Cluster) Do(s Step) bool {
 				n.ConfAt[k] = v
 			}
 			n.unsynced = false
+		} else {
+			n.takeImage() // whatever was written survived this crash
 		}
 		c.record(s)
 		c.emit(&Event{Act: "Crash", A: JArgs{Ok: s.Ok}}, n)
@@ -626,6 +628,35 @@ func (c *Cluster) doLocal(s Step) bool {
 			ev.A.Ents = jEntries([]*pb.Entry{{Type: typ.Enum(), Data: data}})
 		}
 		p = call(func() { err = n.RN.ProposeConfChange(cc) })
+	case "ProposeBatch":
+		// one MsgProp carrying several entries (what an application that batches proposals
+		// steps into the RawNode): pids Pid, Pid+1, ...; CC != "" places that conf change at
+		// position K (0-based) of the batch
+		var ents []*pb.Entry
+		cnt := int(s.To)
+		if cnt < 2 {
+			cnt = 2
+		}
+		for k := 0; k < cnt; k++ {
+			if s.CC != "" && uint64(k) == s.K {
+				var cc pb.ConfChangeI
+				if s.CC == "leave" {
+					cc = &pb.ConfChangeV2{Context: []byte(fmt.Sprintf("p%d.", s.Pid+k))}
+				} else {
+					var perr error
+					if cc, perr = parseCC(s.CC, s.Pid+k); perr != nil {
+						panic("harness: " + perr.Error())
+					}
+				}
+				typ, data, _ := pb.MarshalConfChange(cc)
+				ents = append(ents, &pb.Entry{Type: typ.Enum(), Data: data})
+			} else {
+				ents = append(ents, &pb.Entry{Data: payload(s.Pid+k, s.Psz)})
+			}
+		}
+		ev.A.Ents = jEntries(ents)
+		m := &pb.Message{Type: pb.MsgProp.Enum(), From: new(n.ID), Entries: ents}
+		p = call(func() { err = n.RN.Step(m) })
 	case "ReadIndex":
 		ev.A.Ents = jEntries([]*pb.Entry{{Data: readCtx(s.Rid)}})
 		p = call(func() { n.RN.ReadIndex(readCtx(s.Rid)) })
@@ -760,6 +791,11 @@ func (c *Cluster) doSyncStep(s Step) bool {
 		})
 		ev.A.Ents = jEntries(rd.Entries)
 		n.Phase = "ents"
+		if rd.MustSync {
+			n.takeImage() // fsync: everything written so far is durable
+		} else if len(rd.Entries) > 0 {
+			n.unsynced = true
+		}
 	case "PersistHardState":
 		if async || n.Phase != "ents" {
 			return false
@@ -918,6 +954,7 @@ func (c *Cluster) doAppendThread(s Step, stages int) bool {
 		if stages >= 1 {
 			_ = n.St.Append(m.GetEntries())
 		}
+		n.takeImage() // what reached the disk before the crash is what survives it
 		n.crashVolatile()
 		c.record(s)
 		c.emit(ev, n)
